@@ -12,7 +12,7 @@ package main
 //   write <tok> | trunc <n> | flip <off> <bit> | rmmanifest      (tampering; then D ...)
 //   truncall                            T n=<len> ok=<#prefixes that load>
 //   flipall                             F n=<#bits> ok= manifest= config= digest=<crc32>
-//   open                                O ok | O err:... ; D ... ; W <dirs holding *.wal>
+//   open                                O ok ; C <dump of the configuration the engine holds> | O err:... ; D ... ; W <dirs holding *.wal>
 //   put K V | get K | close             G v:..|notfound
 //   m2 <what>                           second manifest API (pkg/config/manifest.go): oracle only
 // Byte strings are tokens; the two bytes "$R" stand for the scratch root in every input and
@@ -349,13 +349,6 @@ func (s *c20State) printDir() {
 		m = render(s.canon(d.manifest))
 	}
 	s.out(fmt.Sprintf("D exists=%d manifest=%s tmp=%d", b2i(d.exists), m, b2i(d.tmp)))
-}
-
-func b2i(b bool) int {
-	if b {
-		return 1
-	}
-	return 0
 }
 
 func (s *c20State) dump(c *config.Config) string {
@@ -797,6 +790,12 @@ func (s *c20State) opOpen() {
 	} else {
 		s.out("O ok")
 		s.eng = e
+		// the configuration the engine holds (read-only view, tag verif)
+		if used := e.VerifConfig(); used != nil {
+			s.out("C " + s.dump(used))
+		} else {
+			s.out("C none")
+		}
 	}
 	s.printDir()
 	s.out("W " + strings.Join(s.walDirs(), ","))
@@ -846,15 +845,14 @@ func (s *c20State) opOpen() {
 	}
 }
 
-// the engine uses configuration c: its WAL directory is the one holding the live log; when the
-// read-only view EngineFacade.VerifConfig() exists (hook requested, tag verif) the configuration
-// the engine holds is compared with c field by field
+// the engine uses configuration c: the configuration it holds (EngineFacade.VerifConfig(), tag
+// verif) equals c field by field, and its WAL directory is the one holding the live log
 func (s *c20State) checkUses(c *config.Config, walBefore []string) {
 	if c == nil {
 		return
 	}
-	if vc, ok := interface{}(s.eng).(interface{ VerifConfig() *config.Config }); ok && s.eng != nil {
-		if used := vc.VerifConfig(); used == nil {
+	if s.eng != nil {
+		if used := s.eng.VerifConfig(); used == nil {
 			s.fail("", "the engine holds no configuration")
 		} else if d := c20Diff(c, used); d != "" {
 			s.fail("", "the engine was opened with a configuration that differs from the stored one in field "+d)
